@@ -36,6 +36,10 @@ func genC14(t *rapid.T) c14Case {
 		tab, b := drawBulk(t)
 		return c14Case{Table: &tab, Bulk: b}
 	}
+	if rapid.IntRange(0, 49).Draw(t, "big") == 23 {
+		tab, b := drawBig(t)
+		return c14Case{Table: &tab, Bulk: b}
+	}
 	tab := gen.DrawTable(t, o)
 	return c14Case{Table: &tab}
 }
@@ -120,7 +124,8 @@ func propC14(c c14Case, o *Obs) error {
 		spec := *c.Table
 		if c.Bulk != nil {
 			spec.Refs = c.Bulk.Expand(spec.Min)
-			o.Class("bulk-restart-cap")
+			o.ClassIf(len(c.Bulk.Lens) == 0, "bulk-restart-cap")
+			o.ClassIf(len(c.Bulk.Lens) > 0, "big-records-in-big-blocks")
 		}
 		data, st, rejected, err := WriteTable(spec)
 		if rejected {
